@@ -100,6 +100,8 @@ def classify_site(out: Outcome, an: Analysis):
     for k, v in (case.get("options") or {}).items():
         if k.startswith("DO_") and v is True:
             out.labels.add("opt:" + k)
+        elif k == "DECIMAL_PLACES":
+            out.labels.add(f"opt:DECIMAL_PLACES={v}")
     us = [u for u in case.get("utilities", []) if u.get("active", True)]
     if not us:
         out.labels.add("no-utilities-given")
